@@ -191,19 +191,24 @@ package knxnet
 //@   assigns nothing
 
 //@ func HostInfoFromAddress(address net.Addr) (info HostInfo, err error)
-//@   trusted
-//@   -- assumed: parsing of the textual socket address (net.SplitHostPort, net.ParseIP, strconv.ParseUint)
-//@   ensures err != nil || info.Protocol == UDP4 || info.Protocol == TCP4
+//@   props C16
+//@   -- assumed contracts: net.SplitHostPort, net.ParseIP, net.IP.To4, strconv.ParseUint, net.Addr.String/Network
+//@   requires address != nil
+//@   ensures [code] err == nil ==> (info.Protocol == TCP4 <==> network(address) == "tcp") && (info.Protocol == UDP4 <==> network(address) == "udp")
+//@   ensures [known] err == nil ==> info.Protocol == UDP4 || info.Protocol == TCP4
+//@   ensures [port] err == nil ==> info.Port != 0
 //@   assigns nothing
 
 //@ func NewDescriptionReq(addr net.Addr) (req *DescriptionReq, err error)
-//@   trusted
+//@   props C20
+//@   requires addr != nil
 //@   ensures (err == nil) == (req != nil)
 //@   ensures req != nil ==> fresh(req)
 //@   assigns nothing
 
 //@ func NewSearchReq(addr net.Addr) (req *SearchReq, err error)
-//@   trusted
+//@   props C20
+//@   requires addr != nil
 //@   ensures (err == nil) == (req != nil)
 //@   ensures req != nil ==> fresh(req)
 //@   assigns nothing
